@@ -148,6 +148,7 @@ func capture(sc *scheme, mode string, r *prng, nmal int, extra string) bool {
 	}
 	out.Flush()
 	grid(sc, rec, r)
+	locateGrid(sc, rec, r, thorough)
 	malformed(sc, rec, r, nmal)
 	return ok
 }
@@ -179,11 +180,12 @@ func grid(sc *scheme, rec *recorder, r *prng) {
 				flags = append(flags, !c.Bcast)
 			}
 			for _, bcIn := range flags {
-				o := jOn{Kind: "onmsg", Scheme: sc.name, Phase: s.phase, URL: s.url, RealFrom: s.from, From: x, Member: has16(s.ids, x),
-					BcastIn: bcIn, Parsed: parses(s.bytes, x, bcIn)}
+				o := jOn{Kind: "onmsg", Scheme: sc.name, Phase: s.phase, URL: s.url, IDs: sorted16(s.ids), Self: self, RealFrom: s.from, From: x,
+					Member: has16(s.ids, x), BcastIn: bcIn, Parsed: parses(s.bytes, x, bcIn)}
 				o.Panic = onMsg(p, s.bytes, x, bcIn)
 				keys, idx, types, bcs := p.VerifDrainIn()
 				o.Enq = len(keys)
+				o.AttrIdx = -1
 				if len(keys) > 0 {
 					o.AttrKey = new(big.Int).SetBytes(keys[0]).String()
 					o.AttrIdx, o.AttrType, o.AttrBcast = idx[0], types[0], bcs[0]
@@ -192,6 +194,106 @@ func grid(sc *scheme, rec *recorder, r *prng) {
 			}
 		}
 	}
+}
+
+// locateGrid: the slot a queued message is filed under.  OnMsg sets From.Index = locatePartyIndex(transport sender) and
+// tss-lib files every message under that index without looking at the key again, so the index IS the sender binding:
+// it must be the position of the party whose key equals the sender's, and -1 (refused by tss-lib) for everybody else.
+// Sessions with gaps, not starting at the smallest identifier, with the boundary identifiers; senders = every member
+// and non-members below, between and above the members.
+func locateGrid(sc *scheme, rec *recorder, r *prng, thorough bool) {
+	sessions := [][]uint16{{1, 3, 5}, {2, 7, 9}, {0, 255, 256, 65535}, {255, 256, 4095}, {10, 20, 30, 40}, {0, 1, 2},
+		{65533, 65534, 65535}, {3, 4}, {1, 2, 3, 4, 5}, {32767, 32768, 65279, 65280}}
+	nrand := 6
+	if thorough {
+		nrand = 40
+	}
+	for i := 0; i < nrand; i++ {
+		sessions = append(sessions, sorted16(r.distinctIDs(2+r.intn(5), i%3 == 0)))
+	}
+	// one well-formed message per routing class: built from the tables (empty content decodes), plus captured ones
+	rounds, bcs := sc.tables()
+	type wire struct {
+		url string
+		b   []byte
+	}
+	var msgs []wire
+	if len(bcs) > 0 {
+		msgs = append(msgs, wire{bcs[0], anyBytes(bcs[0], nil)})
+	}
+	var urls []string
+	for u := range rounds {
+		urls = append(urls, u)
+	}
+	sortStrings(urls)
+	for _, u := range urls {
+		if !hasStr(bcs, u) {
+			msgs = append(msgs, wire{u, anyBytes(u, nil)})
+			break
+		}
+	}
+	for _, s := range rec.sorted() {
+		if len(msgs) >= 4 {
+			break
+		}
+		msgs = append(msgs, wire{s.url, s.bytes})
+	}
+	for si, ids := range sessions {
+		self := ids[0]
+		if si%2 == 1 {
+			self = ids[len(ids)-1]
+		}
+		p := sc.newParty(self)
+		p.Init(ids, 1, func([]byte, bool, uint16) {})
+		var xs []uint16
+		add := func(x uint16) {
+			if !has16(xs, x) {
+				xs = append(xs, x)
+			}
+		}
+		for _, m := range ids {
+			add(m)
+			if m > 0 {
+				add(m - 1)
+			}
+			if m < 65535 {
+				add(m + 1)
+			}
+		}
+		for _, x := range []uint16{0, 255, 256, 65534, 65535, r.id16(), uint16(r.next())} {
+			add(x)
+		}
+		// between two members that are more than 2 apart: the midpoint
+		for i := 0; i+1 < len(ids); i++ {
+			if ids[i+1]-ids[i] > 2 {
+				add(ids[i] + (ids[i+1]-ids[i])/2)
+			}
+		}
+		w := msgs[si%len(msgs)]
+		c := classify(p, self, w.b)
+		for _, x := range xs {
+			o := jOn{Kind: "onmsg", Scheme: sc.name, Phase: "locate", URL: w.url, IDs: sorted16(ids), Self: self, RealFrom: x, From: x,
+				Member: has16(ids, x), BcastIn: c.Bcast, Parsed: parses(w.b, x, c.Bcast)}
+			o.Panic = onMsg(p, w.b, x, c.Bcast)
+			keys, idx, types, bcf := p.VerifDrainIn()
+			o.Enq = len(keys)
+			o.AttrIdx = -1
+			if len(keys) > 0 {
+				o.AttrKey = new(big.Int).SetBytes(keys[0]).String()
+				o.AttrIdx, o.AttrType, o.AttrBcast = idx[0], types[0], bcf[0]
+			}
+			emit(o)
+		}
+	}
+}
+
+func hasStr(xs []string, x string) bool {
+	for _, y := range xs {
+		if x == y {
+			return true
+		}
+	}
+	return false
 }
 
 func anyBytes(url string, val []byte) []byte {
@@ -310,10 +412,12 @@ func malformed(sc *scheme, rec *recorder, r *prng, nmal int) {
 		m.ClsPanic, m.ClsErr, m.ClsRound, m.ClsBcast = cl.Panic, cl.Err, cl.Round, cl.Bcast
 		m.Parsed = parses(c.b, 2, cl.Bcast)
 		m.OnPanic = onMsg(p, c.b, 2, cl.Bcast)
-		keys, _, _, _ := p.VerifDrainIn()
+		keys, idx, _, _ := p.VerifDrainIn()
 		m.OnEnq = len(keys)
+		m.IDs, m.AttrIdx = ids, -1
 		if len(keys) > 0 {
 			m.AttrKey = new(big.Int).SetBytes(keys[0]).String()
+			m.AttrIdx = idx[0]
 		}
 		emit(m)
 	}
@@ -350,10 +454,12 @@ func probe(sc *scheme, arg string) {
 	m.ClsPanic, m.ClsErr, m.ClsRound, m.ClsBcast = cl.Panic, cl.Err, cl.Round, cl.Bcast
 	m.Parsed = parses(b, from, cl.Bcast)
 	m.OnPanic = onMsg(p, b, from, cl.Bcast)
-	keys, _, _, _ := p.VerifDrainIn()
+	keys, idx, _, _ := p.VerifDrainIn()
 	m.OnEnq = len(keys)
+	m.IDs, m.AttrIdx = []uint16{1, 2, 3}, -1
 	if len(keys) > 0 {
 		m.AttrKey = new(big.Int).SetBytes(keys[0]).String()
+		m.AttrIdx = idx[0]
 	}
 	emit(m)
 }
